@@ -13,7 +13,33 @@
 //#include <type_traits>
 #include "mpi_dispatcher.hpp"
 
+#ifdef POMEROL_VERIF
+#include <cstdlib>
+#include <unistd.h>
+#endif
+
 namespace pMPI {
+
+#ifdef POMEROL_VERIF
+/// Verification hook (compiled only with -DPOMEROL_VERIF, inactive unless both environment variables are set):
+/// sleeps for a pseudo-random time derived from POMEROL_VERIF_DELAY_SEED, the rank, the job and a call counter,
+/// at most POMEROL_VERIF_DELAY_MAX_US microseconds, so that the dynamic job-to-rank assignment varies between runs.
+inline void verif_delay(int rank, int job)
+{
+    static long counter = 0;
+    const char* seed_s = std::getenv("POMEROL_VERIF_DELAY_SEED");
+    const char* max_s = std::getenv("POMEROL_VERIF_DELAY_MAX_US");
+    if (!seed_s || !max_s) return;
+    unsigned long max_us = std::strtoul(max_s, 0, 10);
+    if (!max_us) return;
+    unsigned long long x = std::strtoull(seed_s, 0, 10);
+    x ^= 0x9E3779B97F4A7C15ULL * (unsigned long long)(rank + 1);
+    x ^= 0xC2B2AE3D27D4EB4FULL * (unsigned long long)(job + 1);
+    x ^= 0x165667B19E3779F9ULL * (unsigned long long)(++counter);
+    x ^= x >> 33; x *= 0xFF51AFD7ED558CCDULL; x ^= x >> 33; x *= 0xC4CEB9FE1A85EC53ULL; x ^= x >> 33;
+    usleep((useconds_t)(x % max_us));
+}
+#endif
 
 template <typename PartType>
 struct ComputeWrap {
@@ -72,6 +98,9 @@ std::map<pMPI::JobId, pMPI::WorkerId> mpi_skel<WrapType>::run(const boost::mpi::
             JobId p = worker.current_job();
             if (VerboseOutput) std::cout << "["<<p+1<<"/"<<parts.size()<< "] P" << comm.rank() 
                                          << " : part " << p << " [" << parts[p].complexity << "] run;" << std::endl;
+#ifdef POMEROL_VERIF
+            pMPI::verif_delay(comm.rank(), p);
+#endif
             parts[p].run(); 
             worker.report_job_done(); 
         };
